@@ -649,6 +649,7 @@ pub fn run_dacts(node: &mut Node, ds: &[DAct]) {
             DAct::Panic => {
                 if wd.panic_armed.get() && !std::thread::panicking() {
                     wd.panic_armed.set(false);
+                    wd.panic_fired.set(true);
                     label(lab::PANIC_INJECTED);
                     count(ctr::PANICS, 1);
                     {
@@ -1142,9 +1143,15 @@ pub fn run_script_body(s: &Script, cfg: Cfg) {
         arena::st().ctx_op = i as u32;
         wd.panic_armed.set(true);
         wd.destroyed_this_op.borrow_mut().clear();
+        wd.panic_fired.set(false);
         let r = catch_unwind(AssertUnwindSafe(|| apply_op(op, true)));
-        if let Err(e) = r {
-            handle_panic(e);
+        match r {
+            Err(e) => handle_panic(e),
+            Ok(()) => {
+                if wd.panic_fired.get() {
+                    violate(View::PanicSafe, "a value's destructor panicked during this operation but the panic did not propagate to the caller");
+                }
+            }
         }
         if cactusref::__verif::counters()[5] != 0 {
             violate(View::Mem, "the library read the link table of an allocation whose contents had been moved out (stale access)");
